@@ -168,9 +168,9 @@ def run(tier, seed, rep):
                 ('int', 'value', 14, 2), ('int', 'reject', 16, 1), ('int', 'blank', 16, 1),
                 ('float', 'value', 4, 1), ('float', 'reject', 5, 1), ('float', 'blank', 5, 1)]
     else:
-        plan = [('float', 'value', 12, 11), ('float', 'reject', 15, 5), ('float', 'blank', 20, 2),
-                ('int', 'value', 16, 7), ('int', 'reject', 20, 3), ('int', 'blank', 20, 2),
-                ('float', 'value', 9, 4), ('float', 'value', 6, 1), ('float', 'reject', 8, 1)]
+        plan = [('float', 'value', 10, 11), ('float', 'reject', 13, 5), ('float', 'blank', 20, 2),
+                ('int', 'value', 14, 7), ('int', 'reject', 16, 3), ('int', 'blank', 20, 2),
+                ('float', 'value', 6, 1), ('float', 'reject', 8, 1)]
     tasks = []
     for which, clause, N, ns in plan:
         for sh in range(ns):
